@@ -495,13 +495,18 @@ package generic
 //@   notypeinv
 //@   requires win: self != nil && windowif(true, self.v, self.l)
 //@   requires aligned: len(path) >= len(address)
+//@   requires packed: isPacked ==> len(address) >= 1 && path[len(address)-1].t == PathIndex      // the callers set isPacked only when the edited element is an element of a packed list
 //@   requires sep: !samerg(self, self.v) && !samerg(address, self.v) && !samerg(path, self.v) && !samerg(address, self) && !samerg(path, self)
 //@   ensures valid: windowif(true, self.v, self.l)
+//@   callsite (*Value).fixLength requires cur: a3 == self.l - originLen      // every prefix is moved by the change of the buffer size AT THAT MOMENT (not a stale amount)
+//@   callsite (*Value).fixEntryLength requires cur: a3 == self.l - originLen
+//@   callsite (*Value).fixLength requires layer: previousType == proto.MESSAGE || i == len(address) - 2      // a packed list is the innermost container: its prefix is the only one fixed for a LIST layer
 //@   modifies self.Node.v, self.Node.l, bytes(self.v, self.l)[0:self.l]
 //@   loop 1
 //@     invariant win: windowif(true, self.v, self.l) && !samerg(self, self.v)
 //@     invariant mem: (!same(self.v, old(self.v)) ==> fresh(self.v)) && (same(self.v, old(self.v)) ==> self.l == old(self.l))
 //@     invariant diff: diffLen == self.l - originLen
+//@     invariant lay: (i == len(address) - 1 ==> previousType == proto.UNKNOWN) && (isPacked ==> (i == len(address) - 1 || (i == len(address) - 2 && previousType == proto.LIST)) && len(address) >= 1 && path[len(address)-1].t == PathIndex)
 //@     invariant i: 0 - 1 <= i && i < len(address)
 //@     decreases i + 1
 
